@@ -56,7 +56,11 @@ var (
 	wins      = []int64{1, 1, 1, 2, 3, 5, 10, 60}
 	statuses  = []int{0, 0, 429, 503, 418}
 	hdrNames  = []string{"X-Group", "x-group", "X-Tenant"}
-	hdrValues = []string{"a", "b", "A", " a", "c", "", "a b", "Gold", "gold", "TeamA", "teama", "a ", "B"}
+	// two values longer than 64 bytes that share their first 70 (bearer tokens of one issuer, long API keys with a
+	// common prefix): different groups for the allocation table, hence different counters
+	longA     = "Bearer-eyJhbGciOiJSUzI1NiIsInR5cCI6IkpXVCIsImtpZCI6Imlzc3Vlci0wMDEifQ.consumer-A"
+	longB     = "Bearer-eyJhbGciOiJSUzI1NiIsInR5cCI6IkpXVCIsImtpZCI6Imlzc3Vlci0wMDEifQ.consumer-B"
+	hdrValues = []string{"a", "b", "A", " a", "c", "", "a b", "Gold", "gold", "TeamA", "teama", "a ", "B", longA, longB}
 	// exact and inexact percentages: 7, 33, 7.25, 1/3 … do not have an exact float64 ratio (F09b candidates)
 	pcts     = []string{"25/1", "50/1", "75/1", "100/1", "0/1", "10/1", "20/1", "150/1", "7/1", "33/1", "725/100", "1/3", "29/1", "57/1", "7000001/1000000", "333333/1000000", "999999/1000000", "1250001/100000", "58/1", "14/1"}
 	exactPct = []string{"25/1", "50/1", "75/1", "100/1", "0/1", "150/1", "125/10"}
@@ -223,9 +227,10 @@ func genCase(r *prng.R, mode int) []string {
 			// table, hence different counters (only the header NAME is case-folded in the key)
 			m := &rs[i]
 			m.alloc, m.nohdr = true, false
-			m.hdr = prng.Pick(r, []string{"X-Group", "x-group", "X-GROUP"})
+			m.hdr = prng.Pick(r, []string{"X-Group", "x-group", "X-GROUP", "authorization"})
 			m.allowed = int64(r.Range(2, 10))
-			pair := prng.Pick(r, [][]string{{"Gold", "gold", "GOLD"}, {"TeamA", "teama", "TEAMA"}, {"a", "A"}, {"b", "B"}})
+			pair := prng.Pick(r, [][]string{{"Gold", "gold", "GOLD"}, {"TeamA", "teama", "TEAMA"}, {"a", "A"}, {"b", "B"},
+				{longA, longB}, {longA, longB, longA + "x"}})
 			m.groups = nil
 			if caseFam == 1 {
 				// both variants configured, each with its own percentage
@@ -506,12 +511,27 @@ func genDispatchCase(r *prng.R) []string {
 	type ep struct{ url, method string }
 	var eps []ep
 	seen := map[string]bool{}
+	// one spelling per declared URL and case: as is, or with leading / trailing dots and slashes (the loader and the
+	// URL tree trim them); often two methods are declared for one URL, each with its own policies
+	spell := map[string]string{}
+	for _, u := range dURLs {
+		spell[u] = prng.Pick(r, []string{u, u, u + "/", u + "/", "." + u, u + "/.", u + "./"})
+	}
 	for n := r.Range(1, 3); len(eps) < n; {
-		e := ep{prng.Pick(r, dURLs), prng.Pick(r, dMethods)}
+		e := ep{prng.Pick(r, dURLs), prng.Pick(r, []string{"GET", "POST"})}
+		if len(eps) > 0 && r.Chance(50) {
+			e.url = eps[len(eps)-1].url // the same URL for another method
+		}
 		if !seen[e.url+e.method] {
 			seen[e.url+e.method] = true
 			eps = append(eps, e)
 		}
+	}
+	respell := func(u string) string {
+		if r.Chance(70) {
+			return spell[u]
+		}
+		return prng.Pick(r, []string{u, u + "/", "." + u, u + "./"})
 	}
 	type pol struct {
 		scope, url, method, name, rest string
@@ -525,6 +545,9 @@ func genDispatchCase(r *prng.R) []string {
 		if r.Chance(30) {
 			l += " hdr=X-Group default=" + prng.Pick(r, []string{"block", "allow", "use_default_allocation"}) +
 				" dpct=50/1 g=a&50/1 g=b&" + prng.Pick(r, []string{"25/1", "100/1", "7/1"})
+			if r.Chance(40) {
+				l += " g=" + proto.Enc(longA) + "&50/1 g=" + proto.Enc(longB) + "&25/1"
+			}
 		}
 		return l, win
 	}
@@ -539,18 +562,19 @@ func genDispatchCase(r *prng.R) []string {
 	withCache := r.Chance(12)
 	for i, e := range eps {
 		t, win := throttle("")
-		pols = append(pols, pol{"e", e.url, e.method, fmt.Sprintf("throttle-%d", i), t, win})
+		eurl := spell[e.url]
+		pols = append(pols, pol{"e", eurl, e.method, fmt.Sprintf("throttle-%d", i), t, win})
 		if r.Chance(40) {
-			pols = append(pols, pol{"e", e.url, e.method, fmt.Sprintf("retry-%d", i), retry(), 0})
+			pols = append(pols, pol{"e", eurl, e.method, fmt.Sprintf("retry-%d", i), retry(), 0})
 		}
 		for j, n := 0, r.Intn(3); j < n; j++ {
-			pols = append(pols, pol{"e", e.url, e.method, fmt.Sprintf("aux-%d-%d", i, j), prng.Pick(r, others), 0})
+			pols = append(pols, pol{"e", eurl, e.method, fmt.Sprintf("aux-%d-%d", i, j), prng.Pick(r, others), 0})
 		}
 		if r.Chance(12) {
-			pols = append(pols, pol{"e", e.url, e.method, fmt.Sprintf("fixed-%d", i), fmt.Sprintf("kind=fixed status=%d", prng.Pick(r, []int{200, 418, 429})), 0})
+			pols = append(pols, pol{"e", eurl, e.method, fmt.Sprintf("fixed-%d", i), fmt.Sprintf("kind=fixed status=%d", prng.Pick(r, []int{200, 418, 429})), 0})
 		}
 		if withCache && r.Chance(60) {
-			pols = append(pols, pol{"e", e.url, e.method, fmt.Sprintf("cache-%d", i),
+			pols = append(pols, pol{"e", eurl, e.method, fmt.Sprintf("cache-%d", i),
 				fmt.Sprintf("kind=cache ttl=10000000 maxrec=%d", prng.Pick(r, []int{100000, 100000, 10})), 0})
 		}
 	}
@@ -591,7 +615,7 @@ func genDispatchCase(r *prng.R) []string {
 	t := prng.Pick(r, bases)*sec + 1 + int64(r.Intn(int(sec)-1))
 	for k, n := 0, r.Range(5, 30); k < n; k++ {
 		e := eps[r.Intn(len(eps))]
-		url, method := e.url, e.method
+		url, method := respell(e.url), e.method
 		if r.Chance(8) {
 			url = prng.Pick(r, append(dURLs, "api.example.com/other"))
 		}
@@ -601,7 +625,7 @@ func genDispatchCase(r *prng.R) []string {
 		t = nextT(r, t, prng.Pick(r, dWins), true)
 		l := fmt.Sprintf("dreq url=%s method=%s t=%d", proto.Enc(url), method, t)
 		if r.Chance(50) {
-			l += " h=X-Group&" + proto.Enc(prng.Pick(r, []string{"a", "b", "c", "A"}))
+			l += " h=X-Group&" + proto.Enc(prng.Pick(r, []string{"a", "b", "c", "A", longA, longB, longA, longB}))
 		}
 		if r.Chance(12) {
 			l += " h=early-response&" + prng.Pick(r, []string{"true", "true", "false"})
